@@ -19,7 +19,10 @@ RULE = (
     "EVERY in-range index tuple: <T>_get == Python element value; <T>_getp - address(obj) == Python element offset - "
     "obj._offset == address computed from raw bytes by the independent layout model; <T>_len == product of the "
     "runtime shape; <T>_typeid == member index Python reports (-1 for null); <T>_member == referent offset. Paths "
-    "through null references are not called. Non-trivial = a called path has >= 2 parts of which one is an index or a "
+    "through null references are not called. Second engine, for reference-free types: an image of the object is built by "
+    "the independent encoder, its header words are given values the Python writer never produces (stride words scaled by "
+    "random factors, item-offset tables permuted) and the same compiled accessors are called on it: <T>_getp must equal "
+    "the documented address expression evaluated over the header words as they are, <T>_get the value found there. Non-trivial = a called path has >= 2 parts of which one is an index or a "
     "reference; distinct = distinct case JSON."
 )
 ASSUMPTIONS = c01.ASSUMPTIONS + [
@@ -33,7 +36,7 @@ def budget(tier):
 
 
 def essential_labels(tier):
-    return ["dynamic_item_array_not_at_offset_0", "nd_dynamic_strides_from_header", "ref_in_path", "union_called", "non_C_order", "after_growth", "three_cycle_order_dynamic_items"]
+    return ["dynamic_item_array_not_at_offset_0", "nd_dynamic_strides_from_header", "ref_in_path", "union_called", "non_C_order", "after_growth", "three_cycle_order_dynamic_items", "synthetic:item_table_permuted", "synthetic:strides_scaled"]
 
 
 @st.composite
@@ -64,6 +67,7 @@ def cases(draw, tier):
         "placement": p,
         "grow": draw(st.sampled_from([0, 0, 64])),
         "o3": draw(st.integers(0, 9)) == 0 and tier == "thorough",
+        "hdr_seed": draw(st.integers(0, 2**31)),
     }
 
 
@@ -186,9 +190,67 @@ def run_case(case, with_setters=False):
                         return fail("member_address", f"{names['member']}{idxs}: C offset {g - base}, Python referent offset {int(tgt._offset) - off0}", "", labels)
                 ncalls += 2
     labels.add(f"calls_{min(ncalls // 10 * 10, 100)}+")
+    r = synthetic_headers(case, spec, model, node, ctx, ks, labels)
+    if r is not None:
+        return r
     if with_setters:
         return node, obj, model, ks, labels, nontrivial
     return Outcome(True, labels=sorted(labels), nontrivial=nontrivial)
+
+
+def synthetic_headers(case, spec, model, node, ctx, ks, labels):
+    """second engine: the compiled accessors on an image whose header words were given values the Python writer never
+    produces (scaled strides, permuted item-offset tables); the address must be the documented expression over the
+    header words AS THEY ARE.  Reference-free types only (the image is built by the independent encoder)."""
+    import random
+
+    import numpy as np
+
+    if tg.has_refs(spec) or spec["k"] == "unionref":
+        return None
+    try:
+        img = bytearray(layout.encode(spec, model))
+    except Exception:  # value forms the encoder does not take (none expected for walked models)
+        return None
+    log = set()
+    layout.perturb_headers(spec, img, 0, random.Random(case.get("hdr_seed", 0)), log)
+    if not log:
+        return None
+    labels.update("synthetic:" + x for x in log)
+    pad = 16
+    store = np.zeros(len(img) + 2 * pad, dtype="int8")
+    store[pad: pad + len(img)] = np.frombuffer(bytes(img), dtype="int8")
+    base = int(store.ctypes.data) + pad
+    mem = bytes(img)
+    root = node.cls.__name__
+    try:
+        model2 = layout.decode(spec, mem, 0)  # the shapes as the perturbed image states them (index ranges per item)
+    except layout.LayoutError:
+        return None
+    for steps, last in cbuild.api_paths(spec):
+        names = cbuild.kernel_names(root, steps, last)
+        for idxs, cpath, sub in cbuild.instances(spec, model2, steps):
+            kern = ctx.kernels[names["getp"]]
+            ffi = kern.ffi_interface
+            try:
+                _, want = layout.locate(spec, mem, 0, cbuild.layout_steps(cpath), header_strides=True)
+            except layout.LayoutError:
+                continue  # the perturbed words lead outside the image on this path: not called
+            got = sut(lambda: int(ffi.cast("uintptr_t", kern.function(ffi.cast(root, base), *idxs))))
+            if is_raised(got):
+                return fail("getp_raised", f"synthetic image, {names['getp']}{idxs}: {got}", got.key, labels)
+            if (got - base) % 2**64 != want % 2**64:
+                return fail("getp_vs_layout_synthetic_headers", f"{names['getp']}{idxs} on an image with {sorted(log)}: C offset {got - base}, documented expression over the header words {want}", "+".join(sorted(log)) + "|" + _feature(spec, steps), labels)
+            if last["k"] == "scalar" and "strides_scaled" not in log and 0 <= want <= len(mem) - tg.SCALAR_SIZE[last["t"]]:
+                kg = ctx.kernels[names["get"]]
+                g = sut(lambda: kg.function(ffi.cast(root, base), *idxs))
+                if is_raised(g):
+                    return fail("get_raised", f"synthetic image, {names['get']}{idxs}: {g}", g.key, labels)
+                exp = layout.decode(last, mem, want)
+                d = tg.first_diff(last, exp, mat.pyscalar(last, g))
+                if d:
+                    return fail("get_value_synthetic_headers", f"{names['get']}{idxs}: {d}", "+".join(sorted(log)), labels)
+    return None
 
 
 def _feature(spec, steps):
